@@ -64,6 +64,9 @@ def harvest_callees():
 
 
 STATEMENTS = [
+    # bytes literals whose backslashes do not form complete escapes once un-escaped (seeded change C06-m12 ran Bytes literals through
+    # utils.escaped_bytes_representation, which decodes with unicode_escape)
+    "p = b'\\\\'", "p = b'C:\\\\Users\\\\me'", "open(b'/tmp/\\\\x')", "q = [b'\\\\u', b'\\\\N{', b'share\\\\']", "password = b'\\\\'", "f(token=b'a\\\\')", "def g(p=b'/tmp/\\\\'): pass",
     "def f(a, password='x', *, token='y', **kw): pass", "def f(a=ssl.PROTOCOL_SSLv3, b=PROTOCOL_SSLv2, /, c=x.y.z): pass", "async def g(password='x'): pass",
     "def f(*, password='x'): pass", "def f(password=None, secret=b'x'): pass", "lambda password='x': 0",
     "try:\n    pass\nexcept:\n    pass", "try:\n    pass\nexcept (A, B):\n    continue_ = 1", "for i in x:\n    try:\n        pass\n    except a.b:\n        continue",
